@@ -139,6 +139,14 @@ M('min-halves-gap', ['C29'], (RT, "        min0 = self.min(x[:n//2], key=key)\n 
 M('argmax-index-not-following', ['C29'], (RT, "        c = key(max0) < key(max1)\n        a = self.if_else(c, i1, i0)", "        c = key(max0) < key(max1)\n        a = self.if_else(key(max0) <= key(max1), i1, i0)"))
 M('sorted-in-place', ['C29'], (RT, "        self._sort(x, key)  # TODO: stable sort &  vectorization of <'s\n        if reverse:\n            x.reverse()", "        self._sort(x, key)  # TODO: stable sort &  vectorization of <'s\n        if not reverse:\n            x.reverse()"))
 
+M('revert-fix-np_lsb-await', ['C37'], (RT, "        r = self._np_randoms(Zp, a.size, 1 << (l + k - 1))\n        if self.options.no_prss:\n            r = await r\n        r = r.value.reshape(a.shape)\n",
+                                            "        r = self._np_randoms(Zp, a.size, 1 << (l + k - 1)).reshape(*a.shape)\n        if self.options.no_prss:\n            r = (await r)[0]\n        r = r.value\n"))
+M('np_trunc-use-before-await', ['C37'], (RT, "        r_divf = self._np_randoms(Zp, n, 1 << k + l - f)\n        if self.options.no_prss:\n            r_divf = await r_divf\n        r_divf = r_divf.value\n",
+                                             "        r_divf = self._np_randoms(Zp, n, 1 << k + l - f)\n        r_divf = r_divf.value\n"))
+M('sum-drop-copy', ['C01'], (RT, "        if iter(x) is x:\n            x = list(x)\n        else:\n            x = x[:]\n        if x == []:\n            return start\n\n        x[0] = x[0] + start",
+                                 "        if iter(x) is x:\n            x = list(x)\n        if x == []:\n            return start\n\n        x[0] = x[0] + start"))
+M('lsb-use-before-await', ['C01'], (RT, "        r = self._random(Zp, 1 << (l + k - 1))\n        if self.options.no_prss:\n            r = (await r)[0]\n        r = r.value\n        c = await self.output(a + ((1<<l) + (r << 1) + b.value))\n        x = 1 - b",
+                                        "        r = self._random(Zp, 1 << (l + k - 1))\n        r = r.value\n        c = await self.output(a + ((1<<l) + (r << 1) + b.value))\n        x = 1 - b"))
 M('revert-fix-min_max-key', ['C29'], (RT, "            x[i], x[-1-i] = self.if_swap(key(a) >= key(b), a, b)", "            x[i], x[-1-i] = self.if_swap(a >= b, a, b)"))
 M('sort-compare-without-key', ['C29'], (RT, "                        x[i], x[i + d] = self.if_swap(key(a) < key(b), b, a)", "                        x[i], x[i + d] = self.if_swap(a < b, b, a)"))
 
